@@ -265,12 +265,20 @@ func quitLeg(r *ev.Run) {
 		return
 	}
 	r.Add("states", res.Distinct)
-	r.Append("tlc_invariants_checked", "Curlrevshell_quit (fairness): EndsAfterQuit")
+	r.Append("tlc_invariants_checked", "Curlrevshell_quit (fairness): EndsAfterQuit; BoundedAfterCancel NoticeShownAtCompletion")
 	res2, err := tlcrun.Run(tlcrun.Opts{Module: "Curlrevshell", Config: "Curlrevshell_quit_asfound", Workers: 8, Timeout: 10 * time.Minute})
 	if res2 != nil && (strings.Contains(res2.Violated, "EndsAfterQuit") || strings.Contains(strings.Join(res2.Tail, "\n"), "EndsAfterQuit")) {
 		r.Set("tlc_refutes_design_without_drain", "Curlrevshell_quit_asfound.cfg (nobody receives from the operator channel after the shell has returned): EndsAfterQuit violated")
 	} else {
 		r.Inconclusive("Curlrevshell_quit_asfound.cfg: TLC did not refute EndsAfterQuit for the design as found (err=%v violated=%q)", err, resViolated(res2))
+	}
+	// the first version of the repair of the lost closing notice: the output goroutine shows whatever
+	// is or becomes queued, so a flooding shell keeps it from returning
+	res3, _ := tlcrun.Run(tlcrun.Opts{Module: "Curlrevshell", Config: "Curlrevshell_drainall", Workers: 8, Timeout: 10 * time.Minute})
+	if res3 != nil && res3.Violated == "BoundedAfterCancel" {
+		r.Set("tlc_refutes_showing_everything_after_cancellation", "Curlrevshell_drainall.cfg: BoundedAfterCancel violated")
+	} else {
+		r.Inconclusive("Curlrevshell_drainall.cfg: TLC did not refute BoundedAfterCancel (violated=%q)", resViolated(res3))
 	}
 }
 
